@@ -321,6 +321,26 @@ def run_analysis(prop, analyse, tree, tier="quick", seed=0):
     return chk
 
 
+def _prune_cache(max_files=400, max_bytes=600 * 2**20):
+    """Keep the digest-keyed cache bounded (scratch trees of seeded-change runs
+    add entries that are never reused): drop the least recently used files."""
+    d = os.environ.get("VERIF_CACHE", os.path.join(VERIF, ".cache"))
+    try:
+        ents = []
+        for n in os.listdir(d):
+            p = os.path.join(d, n)
+            st = os.stat(p)
+            ents.append((max(st.st_atime, st.st_mtime), st.st_size, p))
+        ents.sort(reverse=True)
+        tot = 0
+        for i, (t, sz, p) in enumerate(ents):
+            tot += sz
+            if i >= max_files or tot > max_bytes:
+                os.remove(p)
+    except OSError:
+        pass
+
+
 def main(prop, analyse, mutants=None, description=""):
     """analyse(chk) fills a Check.  mutants(tree) -> list of Mutant for the
     thorough tier (see sa.selftest)."""
@@ -337,6 +357,7 @@ def main(prop, analyse, mutants=None, description=""):
     except ValueError:
         seed = 0
     tree = Tree(args.root)
+    _prune_cache()
     try:
         chk = run_analysis(prop, analyse, tree, tier, seed)
         new, hits = chk.result()
@@ -401,6 +422,64 @@ def main(prop, analyse, mutants=None, description=""):
 # also a necessary condition of this property, restricted to the files this
 # property anchors
 # ----------------------------------------------------------------------------
+def _tree_digest(tree):
+    """Digest of everything an analysis can depend on: the analysed sources and
+    the checker code itself."""
+    h = hashlib.sha1()
+    for base, pats in ((tree.root, ("ciderpress/**/*.py", "ciderpress/lib/**/*.c", "ciderpress/lib/**/*.h")),
+                       (VERIF, ("sa/*.py", "checks/*.py", "stubs/*", "known_findings.json"))):
+        for pat in pats:
+            for pth in sorted(_glob.glob(os.path.join(base, pat), recursive=True)):
+                try:
+                    with open(pth, "rb") as fh:
+                        h.update(pth.encode())
+                        h.update(fh.read())
+                except OSError:
+                    pass
+    return h.hexdigest()
+
+
+class _SubResult:
+    """What include_findings needs from an included analysis."""
+
+    def __init__(self, obligations, findings, errors):
+        self.obligations, self.findings, self.errors = obligations, findings, errors
+
+
+def _cached_sub(chk, mod):
+    """Run (or load from the digest-keyed cache) the full analysis of another
+    property on the same tree.  Only unmodified trees (no overlay) are cached."""
+    import pickle
+    cache_dir = os.environ.get("VERIF_CACHE", os.path.join(VERIF, ".cache"))
+    cp = None
+    if not chk.tree.overlay and os.environ.get("VERIF_NO_INCLUDE_CACHE") != "1":
+        if not hasattr(chk.tree, "_digest"):
+            chk.tree._digest = _tree_digest(chk.tree)
+        cp = os.path.join(cache_dir, "include_%s_%s.pkl" % (mod.PROP, chk.tree._digest))
+        if os.path.exists(cp):
+            try:
+                with open(cp, "rb") as fh:
+                    ob, fs, er = pickle.load(fh)
+                return _SubResult(ob, [Finding(*f) for f in fs], er)
+            except Exception:
+                pass
+    sub = Check(mod.PROP, chk.tree, tier=chk.tier, seed=chk.seed)
+    sub.is_included = True
+    sub.guard(lambda c: mod.analyse(c))
+    if cp is not None:
+        try:
+            os.makedirs(cache_dir, exist_ok=True)
+            tmp = cp + ".tmp%d" % os.getpid()
+            with open(tmp, "wb") as fh:
+                pickle.dump(([(o[0], o[1], o[2], o[3], None) for o in sub.obligations],
+                             [(f.prop, f.rule, f.file, f.func, f.construct, f.line, f.msg) for f in sub.findings],
+                             sub.errors), fh)
+            os.replace(tmp, cp)
+        except Exception:
+            pass
+    return sub
+
+
 def include_findings(chk, other, files=None, rules=None, why=""):
     """Run checks/<other>.py's analysis on the same tree and re-report, under
     this property, its violations located in `files` (prefix match on the
@@ -412,9 +491,7 @@ def include_findings(chk, other, files=None, rules=None, why=""):
         return 0  # no transitive inclusion
     import importlib
     mod = importlib.import_module("checks." + other.lower())
-    sub = Check(mod.PROP, chk.tree, tier=chk.tier, seed=chk.seed)
-    sub.is_included = True
-    sub.guard(lambda c: mod.analyse(c))
+    sub = _cached_sub(chk, mod)
     rid = "via-%s" % mod.PROP
     chk.rule(rid, "rules of %s restricted to files anchored by %s: %s" % (mod.PROP, chk.prop, why))
     known_other = load_known(mod.PROP)
